@@ -198,6 +198,10 @@ func (_this *Context) BeginMap() {
 }
 
 func (_this *Context) NotifyKey(key interface{}) {
+	if v, ok := key.(negint); ok && v != 0 {
+		// Same value as the other integer forms (negative zero stays distinct from zero).
+		key = new(big.Int).Neg(new(big.Int).SetUint64(uint64(v)))
+	}
 	switch v := key.(type) {
 	case int:
 		if v >= 0 {
